@@ -88,7 +88,7 @@ def consts(**kw):
     return c
 
 
-TREES = consts()                                                       # tree-edit richness, <= 2 revisions
+TREES = consts(TagNames="{}")                                          # tree-edit richness, <= 2 revisions (quick: no tags)
 GRAPH = consts(TopNames='{"a"}', DirNames="{}", ChildNames="{}", SubDirs="FALSE", MaxRevs=3, MaxEdits=1,
                TagNames="{}")                                          # every graph <= 3 revisions (merges, roots)
 TREES_T = consts(NContents=2)                                          # thorough: two contents / link targets
@@ -96,6 +96,9 @@ GRAPH_T = consts(TopNames='{"a", "bb"}', DirNames="{}", ChildNames="{}", SubDirs
                  TagNames="{}", NewRoots="FALSE")                      # thorough: every one-root graph <= 4 revisions
 SMALL = consts(TopNames='{"a", "bb", "dd"}', DirNames='{"dd"}', ChildNames='{"x"}', NContents=2, MaxRevs=3, MinRevs=2,
                MaxEdits=2, NMsg=2, NWho=2, NTz=2, MetaChoices=2)
+DIRS = consts(TopNames='{"dd", "ee"}', DirNames='{"dd", "ee"}', ChildNames='{"x"}', SubDirs="FALSE", MinRevs=2, MaxEdits=3,
+              TagNames="{}", NewRoots="FALSE")                         # two directories and their children only: directory
+#                                                                        renames and moves between directories are frequent
 LARGE = consts(TopNames='{"a", "bb", "dd", "ee"}', DirNames='{"dd", "ee"}', ChildNames='{"x", "yy"}', NContents=4,
                MinRevs=2, MaxEdits=3, NMsg=4, NWho=4, NTs=3, NTz=4, MetaChoices=3, TagNames='{"t1", "t2"}', Pointless="TRUE")
 
@@ -159,10 +162,11 @@ def universe(ctx, nsmall, nlarge, max_revs):
             ctx.machinery("exhaustive %s: state graph depth %s, complete sessions need %d" % (name, res.get("depth"), full))
     # anti-vacuity of the antecedents in LawsHoldOnSpec: finished histories with an empty directory, an executable
     # file and a tag; with a merge of two different trees (the other classes are checked on the replayed histories)
-    tlc.check(ctx, "HistoryChannelGen", cfg_text=vtable.cfg(TREES, ("WitnessEmptyDir",)), expect_violation="WitnessEmptyDir",
+    tlc.check(ctx, "HistoryChannelGen", cfg_text=vtable.cfg(TREES_T, ("WitnessEmptyDir",)), expect_violation="WitnessEmptyDir",
               label="witness WitnessEmptyDir")
     witness_by_simulation(ctx, dict(GRAPH, MinRevs=3), "WitnessAsymMerge", ctx.seed * 100 + 1)
     hs = simulate_histories(ctx, SMALL, nsmall, 30, ctx.seed * 10 + 1, "simulate small")
+    hs += simulate_histories(ctx, DIRS, max(12, nsmall // 2), 30, ctx.seed * 10 + 9, "simulate directories")
     # (revisions, parents per merge, several roots, share); histories with several roots are kept to a small share
     runs = [(max_revs, 2, "FALSE", 0.8), (3, 2, "TRUE", 0.2)] if q else \
         [(max_revs, 2, "FALSE", 0.5), (max_revs, 3, "FALSE", 0.3), (4, 2, "TRUE", 0.2)]
